@@ -39,10 +39,78 @@ def norm_hash(path: Path):
     return hashlib.sha256(text.encode()).hexdigest()
 
 
+NAMED = {"EPSILON": 2.220446049250313e-16, "MAX": None, "MIN": None, "MIN_POSITIVE": 2.2250738585072014e-308}
+INT_LIMITS = {"u8": 255, "u16": 65535, "u32": 4294967295, "i8": 127, "i16": 32767, "i32": 2147483647, "usize": None, "i64": None, "u64": None}
+
+
+def literals(path: Path):
+    """numeric literals (and named numeric constants such as f64::EPSILON, u16::MAX) in the code of a source file, as a sorted
+    list of strings — comments and #[cfg(test)] modules removed"""
+    try:
+        text = path.read_text(errors="replace")
+    except OSError:
+        return []
+    if path.suffix != ".rs":
+        return []
+    cut = text.find("#[cfg(test)]\nmod test")
+    if cut >= 0:
+        text = text[:cut]
+    text = re.sub(r"/\*.*?\*/", "", text, flags=re.S)
+    text = re.sub(r"//.*", "", text)
+    text = re.sub(r'"(?:[^"\\]|\\.)*"', '""', text)
+    out = re.findall(r"(?<![\w.])\d[\d_]*(?:\.\d+)?(?:[eE][-+]?\d+)?(?:_?[iuf]\d+)?(?![\w.])", text)
+    out += re.findall(r"\b(?:f64|f32|i32|u16|u32|u8|i16|usize|i64|u64)::(?:EPSILON|MAX|MIN|MIN_POSITIVE)\b", text)
+    out += re.findall(r"\bas (?:u8|u16|i16|i8)\b", text)
+    return sorted(out)
+
+
 def lock(repo):
     files = sorted({f for fs in anchors().values() for f in fs})
-    LOCK.write_text(json.dumps({f: norm_hash(Path(repo) / f) for f in files}, indent=1) + "\n")
+    d = {f: norm_hash(Path(repo) / f) for f in files}
+    d["__literals__"] = {f: literals(Path(repo) / f) for f in files}
+    LOCK.write_text(json.dumps(d, indent=1) + "\n")
     print(f"locked {len(files)} files")
+
+
+def dictionary(prop, repo):
+    """numbers that appear in the anchored code of `prop` NOW and did not at the validated tree: (ints, floats).  A changed
+    function that compares against 4096, 8, 65536 or f64::EPSILON says where its behaviour may bend; the generators add
+    cases at and around these values (sizes, lengths, counts, requests, magnitudes)."""
+    if not LOCK.exists():
+        return [], []
+    lk = json.loads(LOCK.read_text()).get("__literals__", {})
+    ints, floats = set(), set()
+    for f in anchors().get(prop, []):
+        if f not in lk:
+            continue
+        old = list(lk[f])
+        for tok in literals(Path(repo) / f):
+            if tok in old:
+                old.remove(tok)
+                continue
+            if tok.startswith("as "):
+                lim = INT_LIMITS.get(tok[3:])
+                if lim:
+                    ints.add(lim + 1)
+                continue
+            if "::" in tok:
+                ty, name = tok.split("::")
+                if name == "EPSILON":
+                    floats.add(2.220446049250313e-16 if ty == "f64" else 1.1920929e-07)
+                elif name == "MIN_POSITIVE":
+                    floats.add(2.2250738585072014e-308)
+                elif name == "MAX" and INT_LIMITS.get(ty):
+                    ints.add(INT_LIMITS[ty])
+                continue
+            t = re.sub(r"_?[iuf]\d+$", "", tok).replace("_", "")
+            try:
+                if re.fullmatch(r"\d+", t):
+                    ints.add(int(t))
+                else:
+                    floats.add(float(t))
+            except ValueError:
+                pass
+    return sorted(i for i in ints if i > 2), sorted(x for x in floats if x not in (0.0, 1.0))
 
 
 def drift(prop, repo):
